@@ -127,6 +127,16 @@ def check_rpy(case, ctx):
             ang = as_real_array(ctx, o2.value, (3,), route=r, what="angles")
             if ang is not None:
                 ctx.le("rpy -> q -> rpy returns the angles", angdiff(ang, rpy), tol_ang, {"rpy": rpy, "back": ang}, route=r)
+    # the free back-conversions handed the library's own objects (q2rpy(Quaternion(rpy=...)) is the natural chaining): the same values, the same angles
+    from .. import forms
+    qv = rq.qnormalize(np.asarray(o.rpy2q(rpy.copy()), float))
+
+    def flat_axang(q_):
+        ax_, an_ = o.quat2axang(q_)
+        return np.r_[np.asarray(ax_, float), float(an_)]
+    for r, fn in (("rpy/free", lambda q_: o.q2rpy(q_)), ("rpy/cardan", lambda q_: o.q2cardan(q_)), ("rpy/free[q2euler]", lambda q_: o.q2euler(q_)), ("axang/free", flat_axang)):
+        forms.invariant(ctx, r, fn, [qv], lists=True, objects=True, tol=1e-12,
+                        clause="a back-conversion gives the same angles whether the quaternion comes as an array, a list or one of the library's own objects")
     out = call(lambda: (o.rpy2q(np.degrees(rpy), in_deg=True), o.q2rpy(o.rpy2q(rpy.copy()), in_deg=True)))
     if ctx.returned(out, route="rpy/free"):
         qd, angd = out.value
